@@ -623,11 +623,16 @@ impl ObjectReceiver {
         };
 
         if let Some(object_writer) = self.object_writer.as_mut() {
-            object_writer.state = ObjectWriterSessionState::Error;
-            if interrupted {
-                object_writer.writer.interrupted(now);
-            } else {
-                object_writer.writer.error(now);
+            // A writer receives a single terminal call
+            if object_writer.state == ObjectWriterSessionState::Opened
+                || object_writer.state == ObjectWriterSessionState::Idle
+            {
+                object_writer.state = ObjectWriterSessionState::Error;
+                if interrupted {
+                    object_writer.writer.interrupted(now);
+                } else {
+                    object_writer.writer.error(now);
+                }
             }
         }
 
